@@ -261,23 +261,33 @@ def ob_scale(cfg):
     return verify(body, timeout_ms=30000, check_side=False)
 
 
-@obligation("channel/JP_SINR_first_principles", params=[{"cfg": n} for n in ("K2",)], timeout=120,
-            desc="calc_JP_SINR(F,U) (joint processing: every precoder spans all transmit antennas): value == |u^H H_k f_kl|^2 / (sum other "
-                 "streams |u^H H_k f_jd|^2 + noise |u|^2)")
+@obligation("channel/JP_SINR_first_principles", params=[{"cfg": n} for n in ("K2", "EXT")], timeout=240,
+            desc="calc_JP_SINR(F,U) (joint processing: every precoder spans all USERS' transmit antennas): value == |u^H H_k f_kl|^2 / (sum "
+                 "other streams |u^H H_k f_jd|^2 + noise |u|^2 [+ pe |u^H H_ke|^2 for the ext-int class, symbolic pe]); calc_JP_Q(k, F) == "
+                 "sum over the other users of (H_k F_l)(H_k F_l)^H + noise I [+ pe H_ke H_ke^H]")
 def ob_jp(cfg):
     cf = CONFIGS[cfg]
 
     def body(c, it):
         o, F0, U, nv = _setup(c, it, cf, "sym")
         K = cf["K"]
-        tot = sum(cf["Nt"])
+        tot = sum(cf["Nt"])                      # the users' transmit antennas (the external interferer is not precoded)
         F = np.empty(K, dtype=object)
         for k in range(K):
             F[k] = _cmat(c, "G%d" % k, tot, cf["Ns"][k])
-        S = it.call(it.getattr(o, "calc_JP_SINR"), [F, U])
+        pe = None
+        if cf["ext"]:
+            pe = c.var("pe", "real")
+            c.assume(pe >= 0)
+            S = it.call(it.getattr(o, "calc_JP_SINR"), [F, U, pe])
+        else:
+            S = it.call(it.getattr(o, "calc_JP_SINR"), [F, U])
+        H = it.getattr(o, "H")
         goals = []
         for k in range(K):
-            Hk = it.call(it.getattr(o, "get_Hk"), [k])
+            Hk_full = np.asarray(it.call(it.getattr(o, "get_Hk"), [k]), dtype=object)
+            Hk = Hk_full[:, :tot]
+            n = cf["Nr"][k]
             for l in range(cf["Ns"][k]):
                 u = U[k][:, l:l + 1]
                 uH = _conjT(u)
@@ -287,9 +297,22 @@ def ob_jp(cfg):
                     for d in range(cf["Ns"][j]):
                         if (j, d) != (k, l):
                             den = den + _abs2(np.dot(uH, np.dot(Hk, F[j][:, d:d + 1]))[0, 0])
+                if cf["ext"]:
+                    den = den + pe * sum(_abs2(x) for x in np.dot(uH, H[k, K]).flat)
                 goals += _ratio_goals("JP SINR[%d][%d]" % (k, l), S[k][l], num, den)
+            Q = it.call(it.getattr(o, "calc_JP_Q"), [k, F] + ([pe] if cf["ext"] else []))
+            spec = np.zeros((n, n), dtype=object)
+            for j in range(K):
+                if j != k:
+                    A = np.dot(Hk, F[j])
+                    spec = spec + np.dot(A, _conjT(A))
+            spec = spec + np.eye(n, dtype=object) * nv
+            if cf["ext"]:
+                spec = spec + pe * np.dot(H[k, K], _conjT(H[k, K]))
+            goals.append(Goal("JP Q_%d == sum of the other users' covariances + noise (+ ext)" % k,
+                              np.shape(Q) == (n, n) and sym.SBool(z3.And([_ceq(Q[i, j], spec[i, j]) for i in range(n) for j in range(n)]))))
         return goals
-    return verify(body, timeout_ms=30000, check_side=False)
+    return verify(body, timeout_ms=60000, check_side=False)
 
 
 @obligation("channel/Q_hermitian_psd_sum_of_links", params=[{"cfg": n, "noise": nz} for n in CONFIGS for nz in ("sym", "none")], timeout=120,
